@@ -85,8 +85,9 @@ def corpus():
     return out
 
 
-def cvr_list_for(vendor, rows, n_phantoms, drop=0):
-    """one CVR per listed card (minus `drop` at the end), then phantom CVRs `phantom-1-k`"""
+def cvr_list_for(vendor, rows, n_phantoms, drop=0, prefix="phantom-1-"):
+    """one CVR per listed card (minus `drop` at the end), then phantom CVRs `phantom-1-k` (or another `prefix`
+    handed to CVR.make_phantoms: the identifier of a phantom is whatever the caller chose)"""
     cvrs = []
     for r in rows:
         for k in range(1, r["size"] + 1):
@@ -95,14 +96,17 @@ def cvr_list_for(vendor, rows, n_phantoms, drop=0):
     if drop:
         cvrs = cvrs[: max(0, len(cvrs) - drop)]
     for k in range(1, n_phantoms + 1):
-        cvrs.append({"id": f"phantom-1-{k}", "cib": None, "phantom": True})
+        cvrs.append({"id": f"{prefix}{k}", "cib": None, "phantom": True})
     return cvrs
 
 
 def cvr_case(vendor, sizes, max_cards, rng, sample=None, style="int", drop=0, wellformed=True):
     rows = mk_rows(vendor, sizes, style=style)
     T = sum(sizes)
-    cvrs = cvr_list_for(vendor, rows, max(0, max_cards - T) + drop, drop)
+    prefix = "phantom-1-"
+    if vendor == "dominion" and rng is not None and rng.chance(0.3):
+        prefix = rng.choice(["missing-1-", "ph-9-", "phantom-2-", "zz-0-"])
+    cvrs = cvr_list_for(vendor, rows, max(0, max_cards - T) + drop, drop, prefix)
     n_cvrs = sum(1 for c in cvrs if not c["phantom"])
     if sample is None:
         k = rng.randint(0, min(10, len(cvrs)))
